@@ -185,7 +185,8 @@ func TrimmedCSVSeq(s string) iter.Seq[string] {
 			case escape:
 				part.WriteByte(c)
 				escape = false
-			case c == '\\':
+			case c == '\\' && inQuotes:
+				// quoted-pair (RFC 9110 §5.6.4): only inside a quoted-string
 				part.WriteByte(c)
 				escape = true
 			case c == '"':
